@@ -12,6 +12,7 @@ import Kanzi.Drv.Hash
 import Kanzi.Drv.IBS
 import Kanzi.Drv.OBS
 import Kanzi.Drv.Cli
+import Kanzi.Drv.Jobs
 
 open Kanzi
 
@@ -173,4 +174,5 @@ def main (args : List String) : IO UInt32 := do
   | ["ibs"] => loop stdin stdout Kanzi.Drv.ibs; return 0
   | ["obs"] => loop stdin stdout Kanzi.Drv.obs; return 0
   | ["cli"] => loop stdin stdout Kanzi.Drv.cli; return 0
+  | ["jobs"] => loop stdin stdout Kanzi.Drv.jobs; return 0
   | _ => IO.eprintln "usage: kmodel <norm>"; return 2
